@@ -637,6 +637,12 @@ func genC01(tier string, seed int64) (*Family, error) {
 		{"lead0_007", &expr{op: "<", l: x64, r: mkLit("007", "int64(7)", 'I')}},
 		{"lead0_zero", &expr{op: "+", l: x64, r: mkLit("00", "int64(0)", 'I')}},
 		{"lead0_real", &expr{op: "*", l: x64, r: mkLit("010.5", "float64(10.5)", 'F')}},
+		{"exp_neg", &expr{op: "*", l: x64, r: mkLit("5e-1", "float64(5e-1)", 'F')}},
+		{"exp_neg2", &expr{op: "+", l: x64, r: mkLit("25e-2", "float64(25e-2)", 'F')}},
+		{"exp_neg_cmp", &expr{op: "<", l: mkLit("1e-3", "float64(1e-3)", 'F'), r: x64}},
+		{"exp_neg_upper", &expr{op: "-", l: x64, r: mkLit("7E-10", "float64(7e-10)", 'F')}},
+		{"exp_pos", &expr{op: "/", l: x64, r: mkLit("2e3", "float64(2e3)", 'F')}},
+		{"exp_neg_signed", &expr{op: "*", l: x64, r: &expr{op: "()", l: mkLit("-5e-1", "float64(-5e-1)", 'F')}}},
 		{"maxint_lit", &expr{op: "+", l: x64, r: mkLit("9223372036854775807", "int64(9223372036854775807)", 'I')}},
 		{"cmp_of_sums", &expr{op: "<=", l: &expr{op: "+", l: x64, r: y64}, r: &expr{op: "*", l: mkVar("z", "int64"), r: mkVar("w", "int64")}}},
 	}
